@@ -42,9 +42,6 @@ func genWork(r *Rng, tier string) Work {
 		return Work{Kind: "cnf", Cnf: &cc}
 	case 3:
 		o := genOptCase(r, tier)
-		for o.hasNegCost() {
-			o = genOptCase(r, tier)
-		}
 		return Work{Kind: "opt", Opt: &o}
 	case 4:
 		var m MaxSatCase
